@@ -28,6 +28,13 @@
 //!   `p` two callers at the same moment.  `e2d <L|E> <opts> <outcomes> <ops>` is `e2e` on an
 //!   Endpoint with options: `z`/`n`/`s`/`l` = `Endpoint::timeout`, `q` = `concurrency_limit(1)`,
 //!   `r` = `rate_limit(1, 80 ms)`.
+//! * `bal list <endpoints> <script>` / `bal chan - <script>` — `Channel::balance_list` (built at `b`) /
+//!   `Channel::balance_channel` (`i<k>` / `r<k>` = `Change::Insert` / `Change::Remove`) over up to three real
+//!   loopback TCP endpoints; `u<k>` / `k<k>` = endpoint k's server starts (a new generation) / goes away
+//!   (listener closed, connections dropped, the port kept by a bound non-listening socket), `c` = one unary
+//!   call.  Observed per call: `c:resp<k>.<gen>` (every test server tags its answers), `c:err<code>` (the
+//!   failure of a connection attempt: tonic's ConnectError is in the chain), `c:lost` (any other error),
+//!   `c:hang` (no result within 2.5 s of real time; ends the observation).
 //! * `cls <chain>` — `Status::from_error` on an error whose `source()` chain is built from the
 //!   tokens (`W<id>` user error type, `I.<Kind>` io::Error, `C` tonic::ConnectError, `S<code>`
 //!   Status, `T` TimeoutExpired, `H2.<reason>` h2::Error, `L` a rustls error, `Yh` the error of a
@@ -563,6 +570,139 @@ pub fn generate(tier: &str, rng: &mut Rng) -> Vec<String> {
         out.push(format!("net {} {} {}b{}", tr, m, pre, post));
     }
 
+    // ---- bal: load-balanced channels (Channel::balance_list / balance_channel) over real loopback
+    // TCP endpoints; real time, spread over the case list like the net cases ----
+    for c in [
+        // one endpoint: exactly the plain lazy channel — an error per call while nothing listens,
+        // recovery at the first call after the server is there (seed C14e: a non-lazy endpoint
+        // connection is dropped by tower's Balance at its first failed attempt, and every call hangs)
+        "bal list 0 bc",
+        "bal list 0 bccu0cc",
+        "bal list 0 u0bcck0ccu0cc",
+        "bal chan - i0cu0cc",
+        // two and three endpoints, all down, then one / all of them up: parked failures are handed
+        // out once each
+        "bal list 01 bccccu0cccccc",
+        "bal list 01 bccccu0u1cccccc",
+        "bal list 012 bcccu0u1u2cccccc",
+        // one endpoint up, the other(s) down for good: the dead one is retried and fails a call
+        // now and then, but is never lost
+        "bal list 01 u0bcccccccc",
+        "bal list 012 u0bcccccccccc",
+        "bal list 01 u0u1bcccck1cccccu1cccc",
+        // an attempt accepted by a server that is gone before the connection is first used
+        "bal list 01 u0bcccu1ck1cccc",
+        "bal list 01 u0bcccu1cck1cccc",
+        // insert / remove while the channel is in use; after the healthy endpoint is removed the
+        // one that was down at first has to serve (several endpoints under seed C14e: it is gone)
+        "bal chan - u0i0cci1ccccr1cc",
+        "bal chan - u0u1i0i1ccccr0cccc",
+        "bal chan - u0i0i1cccu1r0cc",
+        "bal chan - u0i0i1ccccu1r0ccc",
+        "bal chan - i0i1ccu0u1ccccr0ccr1i0cc",
+        "bal chan - u0i0ccr0i0cck0cc",
+        // a channel without any endpoint waits for one
+        "bal chan - c",
+    ] {
+        out.push(c.to_string());
+    }
+    {
+        // list mode: which servers are up when the channel is built, then a script over calls and
+        // the servers of the listed endpoints starting / stopping
+        let letter = |rng: &mut Rng, eps: &[usize], calls: u64| -> String {
+            let x = rng.below(calls + 4);
+            if x < calls {
+                "c".to_string()
+            } else {
+                let k = eps[rng.below(eps.len() as u64) as usize];
+                format!("{}{}", if x % 2 == 0 { 'u' } else { 'k' }, k)
+            }
+        };
+        let n = if thorough { 1200 } else { 36 };
+        for i in 0..n {
+            let ne = 1 + (i % 3);
+            let eps: Vec<usize> = (0..ne).collect();
+            let mut sc = String::new();
+            for k in &eps {
+                if rng.chance(1, 2) {
+                    sc.push_str(&format!("u{}", k));
+                }
+            }
+            sc.push('b');
+            let len = rng.range(3, if thorough { 14 } else { 10 }) as usize;
+            for _ in 0..len {
+                sc.push_str(&letter(rng, &eps, 6));
+            }
+            sc.push('c');
+            let names: String = eps.iter().map(|k| k.to_string()).collect();
+            out.push(format!("bal list {} {}", names, sc));
+        }
+        // chan mode: inserts and removes as well; a call only while the channel has an endpoint
+        let n = if thorough { 1200 } else { 30 };
+        for _ in 0..n {
+            let mut members: Vec<usize> = Vec::new();
+            let mut sc = String::new();
+            let len = rng.range(4, if thorough { 16 } else { 12 }) as usize;
+            for _ in 0..len {
+                let x = rng.below(12);
+                if x < 6 {
+                    if members.is_empty() {
+                        let k = rng.below(3) as usize;
+                        members.push(k);
+                        sc.push_str(&format!("i{}", k));
+                    }
+                    sc.push('c');
+                } else if x < 8 {
+                    let k = rng.below(3) as usize;
+                    if members.contains(&k) {
+                        members.retain(|m| *m != k);
+                        sc.push_str(&format!("r{}", k));
+                    } else {
+                        members.push(k);
+                        sc.push_str(&format!("i{}", k));
+                    }
+                } else {
+                    let k = rng.below(3) as usize;
+                    sc.push_str(&format!("{}{}", if x % 2 == 0 { 'u' } else { 'k' }, k));
+                }
+            }
+            if !members.is_empty() {
+                sc.push('c');
+            }
+            out.push(format!("bal chan - {}", sc));
+        }
+        if thorough {
+            // small scope, exhaustively: one endpoint, every script up to 5 steps; two endpoints, up to 4
+            for pre in ["", "u0"] {
+                for post in all_strings_upto(&['c', 'u', 'k'], 5) {
+                    if !post.contains('c') {
+                        continue;
+                    }
+                    let sc: String = post.chars().map(|c| if c == 'c' { "c".to_string() } else { format!("{}0", c) }).collect();
+                    out.push(format!("bal list 0 {}b{}", pre, sc));
+                }
+            }
+            for pre in ["", "u0", "u1", "u0u1"] {
+                for post in all_strings_upto(&['c', 'A', 'a', 'B', 'b'], 4) {
+                    if !post.ends_with('c') {
+                        continue;
+                    }
+                    let sc: String = post
+                        .chars()
+                        .map(|c| match c {
+                            'A' => "u0",
+                            'a' => "k0",
+                            'B' => "u1",
+                            'b' => "k1",
+                            _ => "c",
+                        })
+                        .collect();
+                    out.push(format!("bal list 01 {}b{}", pre, sc));
+                }
+            }
+        }
+    }
+
     // ---- cls / e2x: how the error of a failed attempt is classified, whatever caused it ----
     let mut leaves: Vec<String> = IO_KINDS.iter().map(|(n, _)| format!("I.{}", n)).collect();
     for c in 0..=16 {
@@ -622,7 +762,7 @@ pub fn generate(tier: &str, rng: &mut Rng) -> Vec<String> {
 /// Cases that run in real time (sockets, timers) are spread evenly over the list: the runner
 /// gives every worker thread one contiguous slice.
 fn spread_real_time_cases(cases: Vec<String>) -> Vec<String> {
-    let (slow, fast): (Vec<String>, Vec<String>) = cases.into_iter().partition(|c| c.starts_with("net ") || c.starts_with("conc "));
+    let (slow, fast): (Vec<String>, Vec<String>) = cases.into_iter().partition(|c| c.starts_with("net ") || c.starts_with("conc ") || c.starts_with("bal "));
     if slow.is_empty() {
         return fast;
     }
@@ -1918,6 +2058,231 @@ fn run_net(transport: &str, lazy: bool, script: &str) -> String {
     out
 }
 
+// ------------------------------------------------------------------------------------------
+// bal: Channel::balance_list / balance_channel over real loopback TCP ports
+// ------------------------------------------------------------------------------------------
+
+/// How long one call on a balanced channel may take before it is reported as `hang` (real time;
+/// on the loopback interface a call takes well under 10 ms).
+const BAL_WATCHDOG: Duration = Duration::from_millis(2500);
+
+#[derive(Clone, Copy, PartialEq)]
+enum BalOp {
+    Up(usize),
+    Down(usize),
+    Insert(usize),
+    Remove(usize),
+    Build,
+    Call,
+}
+
+fn parse_bal_ops(script: &str) -> Option<Vec<BalOp>> {
+    let cs: Vec<char> = script.chars().collect();
+    let mut out = Vec::new();
+    let mut i = 0;
+    while i < cs.len() {
+        match cs[i] {
+            'c' => {
+                out.push(BalOp::Call);
+                i += 1;
+            }
+            'b' => {
+                out.push(BalOp::Build);
+                i += 1;
+            }
+            'u' | 'k' | 'i' | 'r' => {
+                let k = cs.get(i + 1)?.to_digit(10)? as usize;
+                if k >= 3 {
+                    return None;
+                }
+                out.push(match cs[i] {
+                    'u' => BalOp::Up(k),
+                    'k' => BalOp::Down(k),
+                    'i' => BalOp::Insert(k),
+                    _ => BalOp::Remove(k),
+                });
+                i += 2;
+            }
+            _ => return None,
+        }
+    }
+    Some(out)
+}
+
+/// `bal list <endpoints> <script>` / `bal chan - <script>`.
+fn run_bal(list: bool, eps: &str, script: &str) -> String {
+    let ops = match parse_bal_ops(script) {
+        Some(o) => o,
+        None => return "bad-case".into(),
+    };
+    let mut members: Vec<usize> = Vec::new();
+    if list {
+        for c in eps.chars() {
+            match c.to_digit(10) {
+                Some(k) if (k as usize) < 3 && !members.contains(&(k as usize)) => members.push(k as usize),
+                _ => return "bad-case".into(),
+            }
+        }
+        let bpos = ops.iter().position(|o| *o == BalOp::Build);
+        if members.is_empty()
+            || ops.iter().filter(|o| **o == BalOp::Build).count() != 1
+            || ops.iter().any(|o| matches!(o, BalOp::Insert(_) | BalOp::Remove(_)))
+            || ops[..bpos.unwrap_or(0)].contains(&BalOp::Call)
+        {
+            return "bad-case".into();
+        }
+    } else if eps != "-" || ops.contains(&BalOp::Build) {
+        return "bad-case".into();
+    }
+    let list_members = members.clone();
+    let rt = tokio::runtime::Builder::new_current_thread().enable_all().build().unwrap();
+    let out = rt.block_on(async move {
+        let (arrived, _arrived_rx) = tokio::sync::mpsc::unbounded_channel::<usize>();
+        // per endpoint: port, the socket that keeps the port while nothing listens, generation,
+        // accept task, cables of the connections it accepted
+        struct Ep {
+            port: u16,
+            holder: Option<tokio::net::TcpSocket>,
+            gen: usize,
+            accept: Option<tokio::task::JoinHandle<()>>,
+            cables: Cables,
+        }
+        let mut net: Vec<Ep> = Vec::new();
+        for _ in 0..3 {
+            let sock = match reserve_tcp(0) {
+                Some(s) => s,
+                None => return "env:cannot-bind".to_string(),
+            };
+            let port = sock.local_addr().map(|a| a.port()).unwrap_or(0);
+            net.push(Ep { port, holder: Some(sock), gen: 0, accept: None, cables: Arc::new(Mutex::new(Vec::new())) });
+        }
+        let endpoint_of = |port: u16| tonic::transport::Endpoint::from_shared(format!("http://127.0.0.1:{}", port)).ok();
+        let mut client: Option<tonic::client::Grpc<tonic::transport::Channel>> = None;
+        let mut tx: Option<tokio::sync::mpsc::Sender<tonic::transport::channel::Change<usize, tonic::transport::Endpoint>>> = None;
+        if !list {
+            let (channel, sender) = tonic::transport::Channel::balance_channel::<usize>(16);
+            client = Some(tonic::client::Grpc::new(channel));
+            tx = Some(sender);
+        }
+        let mut out: Vec<String> = Vec::new();
+        for op in ops {
+            match op {
+                BalOp::Up(k) => {
+                    let ep = &mut net[k];
+                    if ep.accept.is_some() {
+                        continue;
+                    }
+                    ep.gen += 1;
+                    let tag = k * 1000 + ep.gen;
+                    let cables = ep.cables.clone();
+                    let arrived = arrived.clone();
+                    let sock = match ep.holder.take().or_else(|| reserve_tcp(ep.port)) {
+                        Some(s) => s,
+                        None => return "env:cannot-bind".to_string(),
+                    };
+                    let listener = match sock.listen(1024) {
+                        Ok(l) => l,
+                        Err(_) => return "env:cannot-listen".to_string(),
+                    };
+                    ep.accept = Some(tokio::spawn(async move {
+                        while let Ok((stream, _)) = listener.accept().await {
+                            let _ = stream.set_nodelay(true);
+                            attach_peer(stream, tag, &cables, &arrived);
+                        }
+                    }));
+                }
+                BalOp::Down(k) => {
+                    let ep = &mut net[k];
+                    if let Some(a) = ep.accept.take() {
+                        a.abort();
+                        let _ = a.await;
+                    }
+                    let cs: Vec<_> = ep.cables.lock().unwrap().drain(..).collect();
+                    for c in cs {
+                        c.abort();
+                        let _ = c.await;
+                    }
+                    if ep.holder.is_none() {
+                        ep.holder = reserve_tcp(ep.port);
+                    }
+                    tokio::time::sleep(NET_SETTLE).await;
+                }
+                BalOp::Build => {
+                    let mut es = Vec::new();
+                    for k in &list_members {
+                        match endpoint_of(net[*k].port) {
+                            Some(e) => es.push(e),
+                            None => return "env:bad-uri".to_string(),
+                        }
+                    }
+                    let channel = tonic::transport::Channel::balance_list(es.into_iter());
+                    client = Some(tonic::client::Grpc::new(channel));
+                }
+                BalOp::Insert(k) => {
+                    let e = match endpoint_of(net[k].port) {
+                        Some(e) => e,
+                        None => return "env:bad-uri".to_string(),
+                    };
+                    if let Some(tx) = tx.as_ref() {
+                        if tx.send(tonic::transport::channel::Change::Insert(k, e)).await.is_err() {
+                            return "env:discover-closed".to_string();
+                        }
+                    }
+                }
+                BalOp::Remove(k) => {
+                    if let Some(tx) = tx.as_ref() {
+                        if tx.send(tonic::transport::channel::Change::Remove(k)).await.is_err() {
+                            return "env:discover-closed".to_string();
+                        }
+                    }
+                }
+                BalOp::Call => {
+                    let client = match client.as_mut() {
+                        Some(c) => c,
+                        None => break,
+                    };
+                    let fut = async {
+                        client.ready().await.map_err(|e| tonic::Status::from_error(Box::new(e)))?;
+                        let path = http::uri::PathAndQuery::from_static("/verif.WhoAmI/Who");
+                        client
+                            .unary::<Vec<u8>, Vec<u8>, _>(tonic::Request::new(b"hi".to_vec()), path, raw::RawCodec)
+                            .await
+                            .map(|resp| String::from_utf8_lossy(resp.get_ref()).to_string())
+                    };
+                    match tokio::time::timeout(BAL_WATCHDOG, fut).await {
+                        Err(_) => {
+                            out.push("c:hang".into());
+                            break;
+                        }
+                        Ok(Ok(body)) => match body.strip_prefix("hi@").and_then(|g| g.parse::<usize>().ok()) {
+                            Some(tag) => out.push(format!("c:resp{}.{}", tag / 1000, tag % 1000)),
+                            None => out.push("c:garbled".into()),
+                        },
+                        Ok(Err(st)) => {
+                            if std::env::var("C14_DEBUG").is_ok() {
+                                eprintln!("bal call: {:?} {}", st, source_chain(&st));
+                            }
+                            // the failure of a connection attempt has tonic's ConnectError in its chain;
+                            // anything else hit the call on a connection
+                            let connect_failure = std::error::Error::source(&st).map(|e| walk(e).split('>').any(|t| t == "C")).unwrap_or(false);
+                            if connect_failure {
+                                out.push(format!("c:err{}", st.code() as i32));
+                            } else {
+                                out.push("c:lost".into());
+                            }
+                        }
+                    }
+                    // let everything the call left behind settle (refusals, accepted connections)
+                    tokio::time::sleep(NET_SETTLE).await;
+                }
+            }
+        }
+        out.join(" ")
+    });
+    drop(rt);
+    out
+}
+
 pub fn execute(case: &str) -> String {
     let t: Vec<&str> = case.split(' ').collect();
     match t.as_slice() {
@@ -1932,6 +2297,8 @@ pub fn execute(case: &str) -> String {
             run_e2e(*m == "L", outs, ops, true, if *et == "-" { "" } else { et })
         }
         ["net", tr, m, script] if (*tr == "tcp" || *tr == "uds") && (*m == "L" || *m == "E") => run_net(tr, *m == "L", script),
+        ["bal", "list", eps, script] => run_bal(true, eps, script),
+        ["bal", "chan", eps, script] => run_bal(false, eps, script),
         ["cls", chain] => run_cls(chain),
         ["e2x", m, t, cause] if (*m == "L" || *m == "E") && (*t == "t" || *t == "n") => run_e2x(*m == "L", *t == "t", cause),
         _ => "bad-case".into(),
